@@ -31,7 +31,7 @@ Accepts(ev) ==
     [] ev.e = "OwnerGone" ->
          /\ G("C16", "NothingTheOwnerCreatedRemainsAlive", HeapAlive(alive) = {})
          /\ G("C16", "EveryBlockGivenBackExactlyOnce", DOMAIN blk = {} /\ ev.live_blocks = 0 /\ ev.bad_frees = 0)
-    [] ev.e \in {"Op", "OpBegin", "TupleObs", "Note"} -> TRUE
+    [] ev.e \in {"Op", "OpBegin", "TupleObs", "Note", "AliasPush"} -> TRUE
     [] ev.e = "panic" -> G("C16", "NoPanicInLegalState", FALSE)
     [] ev.e = "crash" -> G("C16", "NoCrash", FALSE)
     [] ev.e = "hang" -> G("C16", "EveryCallReturns", FALSE)
